@@ -557,6 +557,17 @@ impl TB {
         self.push(t, K::NewChain, half, 0, 0);
         self.add_rc(t, name);
     }
+    /// chain of 2*(half+1) + 256*blocks nodes; `weak` names a Weak to the node 1020 + c links from the head
+    pub fn new_long_chain(&mut self, t: usize, name: &str, half: u8, blocks: u8, c: u8, weak: &str) {
+        self.push(t, K::NewChain, half, blocks, c);
+        self.add_rc(t, name);
+        if c > 0 {
+            self.add_weak(t, weak);
+        }
+    }
+    pub fn until_event(&mut self, t: usize, kind: u32, nth: u32) {
+        self.sched.push(Directive { thread: t as u8, until: Until::Event { kind, nth } });
+    }
     pub fn until_steps(&mut self, t: usize, n: u32) {
         self.sched.push(Directive { thread: t as u8, until: Until::Steps(n) });
     }
